@@ -4,7 +4,7 @@ func properties() []*propDef {
 	return []*propDef{
 		{
 			ID: "C01", Title: "Compile, Evaluate and Patch are total: never panic or hang on any input",
-			Rules: []ruleFn{rulePAN1, rulePAN2, rulePAN3, rulePAN4, rulePAN8, ruleTER1},
+			Rules: []ruleFn{rulePAN1, rulePAN2, rulePAN3, rulePAN4, rulePAN5, rulePAN6, rulePAN7, rulePAN8, ruleTER1},
 			Explanation: "Inventory of every instruction of a recognised crash class, and of every loop, in the repository functions reachable (VTA call graph) from the public API; each becomes an obligation that must be discharged by a guard that holds on every path.",
 			NotDecided: []string{"nil dereferences in general", "panics inside third-party code other than the summarised entry points", "stack exhaustion on adversarially deep expressions", "behaviour behind reflect"},
 			Assumptions: []string{"years are in 0..9999", "collections contain only System values and FHIR messages"},
